@@ -117,6 +117,9 @@ FileIsWritable(m, d, p) ==
 Machine(os, script) ==
   [fdt |-> os.fdt, own |-> os.own, files |-> os.files, ncall |-> os.ncall, fault |-> os.fault,
    sw |-> script, r |-> 0, ok |-> TRUE, failed |-> FALSE, err |-> {}, log |-> <<>>]
-OsOf(m) == [fdt |-> m.fdt, own |-> m.own, files |-> m.files, ncall |-> m.ncall, fault |-> m.fault]
+\* State kept between API calls. The cells of a file that no descriptor refers to any more are forgotten: paths are fresh
+\* per acquisition, so a closed file can never be written again, and its clauses were evaluated when it was finished.
+OsOf(m) == [fdt |-> m.fdt, own |-> m.own, ncall |-> m.ncall, fault |-> m.fault,
+            files |-> [p \in DOMAIN m.files |-> IF \E f \in FdSet : m.fdt[f] = p THEN m.files[p] ELSE <<>>]]
 Owns(os, d) == {f \in FdSet : os.own[f] = d /\ os.fdt[f] # 0}
 =============================================================================
